@@ -1,11 +1,19 @@
 (* C15 — what the correspondence check evaluates on every case. *)
 From Yv Require Export Common.Base C15.Model C15.Spec.
 
-(* One case: (step budget, script table, what the driver does), and what the
-   harness logged while the real executor ran: the records and the answers of
-   the driver's receivers (each asked twice). *)
-Definition case :=
-  ((nat * list script * list xact) * (list rec * list (tid * (tryres * tryres))))%type.
+(* A case is one of:
+   - a script system: (step budget, script table, what the driver does), and
+     what the harness logged while the real executor ran: the records and the
+     answers of the driver's receivers (each asked twice);
+   - the same, after which the driver dropped the Executor, tried to spawn and
+     to wake ([tail] and what happened), and then asked its receivers;
+   - one Sender/Receiver pair driven directly (forwarder.rs). *)
+Inductive case :=
+| CSys (inp : nat * list script * list xact)
+       (out : list rec * list (tid * (tryres * tryres)))
+| CDead (inp : nat * list script * list xact) (tail : list dact)
+        (out : list rec * list dout * list (tid * (tryres * tryres)))
+| CPair (ops : list fop) (outs : list fout).
 
 Definition pevent_eqb (a b : pevent) : bool :=
   match a, b with
@@ -35,16 +43,50 @@ Definition obs_eqb (a b : list (tid * (tryres * tryres))) : bool :=
 
 Definition is_fuel (r : rec) : bool := match r with LFuel => true | _ => false end.
 
+Definition dout_eqb (a b : dout) : bool :=
+  match a, b with
+  | DoSpawnErr, DoSpawnErr | DoSpawned, DoSpawned | DoQuiet, DoQuiet | DoPanic, DoPanic => true
+  | _, _ => false
+  end.
+
+Definition fout_eqb (a b : fout) : bool :=
+  match a, b with
+  | FoSent x, FoSent y => option_eqb Nat.eqb x y
+  | FoSendErr x, FoSendErr y => N.eqb x y
+  | FoPending, FoPending | FoDropped, FoDropped | FoSkip, FoSkip | FoPanic, FoPanic => true
+  | FoReady x, FoReady y => N.eqb x y
+  | FoTry x, FoTry y => tryres_eqb x y
+  | _, _ => false
+  end.
+
 Definition run_case (c : case) : verdict :=
-  let '((fuel, scripts, plan), (log, obs)) := c in
-  (* oracle first, on the implementation's log only *)
-  match oracle log obs with
-  | Some k => (2 + k)%N
-  | None =>
-      let (mlog, mobs) := model_run fuel scripts plan in
-      if existsb is_fuel mlog then 99%N
-      else if list_eqb rec_eqb mlog log && obs_eqb mobs obs then 0%N
-      else 1%N
+  match c with
+  | CSys (fuel, scripts, plan) (log, obs) =>
+      (* oracle first, on the implementation's log only *)
+      match oracle log obs with
+      | Some k => (2 + k)%N
+      | None =>
+          let (mlog, mobs) := model_run fuel scripts plan in
+          if existsb is_fuel mlog then 99%N
+          else if list_eqb rec_eqb mlog log && obs_eqb mobs obs then 0%N
+          else 1%N
+      end
+  | CDead (fuel, scripts, plan) tail (log, outs, obs) =>
+      match oracle_dead log tail outs obs with
+      | Some k => (2 + k)%N
+      | None =>
+          match model_run_dead fuel scripts plan tail with
+          | (mlog, mouts, mobs) =>
+              if existsb is_fuel mlog then 99%N
+              else if list_eqb rec_eqb mlog log && list_eqb dout_eqb mouts outs && obs_eqb mobs obs
+                   then 0%N else 1%N
+          end
+      end
+  | CPair ops outs =>
+      if negb (Nat.eqb (length ops) (length outs) || existsb (fun o => fout_eqb o FoPanic) outs)
+      then 99%N
+      else if negb (f_oracle None false (combine ops outs)) then (2 + cPair)%N
+      else if list_eqb fout_eqb (f_run fstate0 ops) outs then 0%N else 1%N
   end.
 
 Definition run_cases := run_cases_with run_case.
